@@ -37,6 +37,10 @@ def check(tier, seed):
             if k % 40 == 0:
                 reqs = S.all_requests(rng, mt, kt)
             scs.append(S.scenario(rng, reqs, kt, n_req=rng.choice([2, 2, 3, 4, 6])))
+        # two response classes sharing one class/id in one history (library CFG-PRT/UART and an application-defined layout)
+        pair = [r for r in reqs if r.label in ('UbxCfgPrtPoll', 'AppCfgPrtUsbPoll')]
+        for _ in range(12 if tier == 'quick' else 300):
+            scs.append(S.scenario(rng, pair, kt, n_req=rng.choice([2, 3]), force='good'))
         tie = RC.model_ties([S.model_cmd(sc, sk) for sc in scs])
         res.notes['deadline_ties_dropped'] = sum(tie)
         for sc in [sc for sc, t in zip(scs, tie) if not t]:
